@@ -17,3 +17,14 @@ func VerifParseChildRanges(y YangRange, s string, decimal bool, fd uint8) (YangR
 
 // VerifCoalesce exposes coalesce.
 func VerifCoalesce(r YangRange) YangRange { return coalesce(r) }
+
+// VerifLexerTrace runs a fresh lexer's next() over input until eof and reports,
+// per call, the rune returned, the width in bytes, and line, col and tcol after it.
+func VerifLexerTrace(input string) [][5]int {
+	l := newLexer(input, "")
+	var out [][5]int
+	for r := l.next(); r != eof; r = l.next() {
+		out = append(out, [5]int{int(r), l.width, l.line, l.col, l.tcol})
+	}
+	return out
+}
